@@ -8,6 +8,21 @@ REPO = os.environ.get("VERIF_REPO", "/repo")
 COQ = os.path.join(VERIF, "coq")
 HARNESS = os.path.join(VERIF, "harness")
 RUN = os.path.join(VERIF, "run")
+EVIDENCE = os.path.join(VERIF, "evidence")
+ALT = REPO != "/repo"
+if ALT:
+    # alternate source tree (a scratch worktree with a candidate change): nothing under /verif proper is touched;
+    # harness, Coq tree (with its generated tables), run files and evidence live under run/alt-<hash>/
+    import hashlib
+    RUN = os.path.join(VERIF, "run", "alt-" + hashlib.sha1(os.path.abspath(REPO).encode()).hexdigest()[:8])
+    os.makedirs(RUN, exist_ok=True)
+    subprocess.run(["rsync", "-a", "--delete", "--exclude", "go.sum", HARNESS + "/", os.path.join(RUN, "harness") + "/"], check=True)
+    subprocess.run(["rsync", "-a", "--exclude", "*.aux", COQ + "/", os.path.join(RUN, "coq") + "/"], check=True)
+    HARNESS = os.path.join(RUN, "harness")
+    COQ = os.path.join(RUN, "coq")
+    EVIDENCE = os.path.join(RUN, "evidence")
+    _gm = open(os.path.join(HARNESS, "go.mod")).read().replace("=> /repo", "=> " + os.path.abspath(REPO))
+    open(os.path.join(HARNESS, "go.mod"), "w").write(_gm)
 NGHX = os.path.join(RUN, "nghx")
 WHITELIST_AXIOMS = {
     "functional_extensionality_dep", "propositional_extensionality", "proof_irrelevance",
@@ -58,6 +73,7 @@ def build_harness(race=False):
 
 
 def coq_makefile():
+    sh([sys.executable, os.path.join(VERIF, "lib", "mkcoqproject.py"), COQ])
     mk = os.path.join(COQ, "Makefile")
     cp = os.path.join(COQ, "_CoqProject")
     if not os.path.exists(mk) or os.path.getmtime(mk) < os.path.getmtime(cp):
